@@ -12,7 +12,8 @@ static inline void verif_register(void *p) { if (verif_nreg < 24) verif_reg[veri
 #endif
 /* statically typed layouts of exact size (lengths fold, DESIGN 1.3) */
 struct vm_hdr { unsigned int tag; char markedp; unsigned char flags; unsigned short pad0; };
-static struct { struct vm_hdr h; unsigned long length, top; sexp data[VM_STACK_SLOTS]; } vm_stack_obj;
+struct vm_stack_t { struct vm_hdr h; unsigned long length, top; sexp data[VM_STACK_SLOTS]; };
+struct vm_stack_t vm_stack_obj;                              /* shared by the harness TU and the stub TU (tentative definitions merge) */
 /* the context as a plain struct with the layout of struct sexp_struct's context variant (fields of
  * a union written through the accessor casts do not fold); offsets checked against the real type */
 struct vm_ctx_t { struct vm_hdr h;
@@ -20,22 +21,23 @@ struct vm_ctx_t { struct vm_hdr h;
   sexp_heap heap; struct sexp_mark_stack_ptr_t mark_stack[SEXP_MARK_STACK_COUNT]; struct sexp_mark_stack_ptr_t *mark_stack_ptr;
   struct sexp_gc_var_t *saves; sexp_sint_t refuel; unsigned char *ip; struct timeval tval;
   char tailp, tracep, timeoutp, waitp, errorp, interruptp; sexp_uint_t last_fp, gc_count, gc_usecs; };
-static struct vm_ctx_t vm_ctx_obj;
+struct vm_ctx_t vm_ctx_obj;
 _Static_assert(offsetof(struct vm_ctx_t, stack) == offsetof(struct sexp_struct, value.context.stack)
   && offsetof(struct vm_ctx_t, globals) == offsetof(struct sexp_struct, value.context.globals)
   && offsetof(struct vm_ctx_t, saves) == offsetof(struct sexp_struct, value.context.saves)
   && offsetof(struct vm_ctx_t, ip) == offsetof(struct sexp_struct, value.context.ip)
   && offsetof(struct vm_ctx_t, waitp) == offsetof(struct sexp_struct, value.context.waitp)
   && offsetof(struct vm_ctx_t, last_fp) == offsetof(struct sexp_struct, value.context.last_fp), "context layout");
-static struct { struct vm_hdr h; unsigned long length; sexp data[SEXP_G_NUM_GLOBALS]; } vm_globals_obj;
+struct vm_globals_t { struct vm_hdr h; unsigned long length; sexp data[SEXP_G_NUM_GLOBALS]; };
+struct vm_globals_t vm_globals_obj;
 /* pools: every slot its own top-level object (exact bounds; fields fold) */
 struct vm_pair_t { struct vm_hdr h; sexp car, cdr, source; };
 struct vm_exc_t { struct vm_hdr h; sexp kind, message, irritants, procedure, source, stack_trace; };
 struct vm_flo_t { struct vm_hdr h; double value; };
-static struct vm_pair_t vm_pair0, vm_pair1, vm_pair2, vm_pair3, vm_pair4, vm_pair5;
-static struct vm_exc_t vm_exc0, vm_exc1, vm_exc2, vm_exc3;
-static struct vm_flo_t vm_flo0, vm_flo1, vm_flo2, vm_flo3;
-static int vm_npairs, vm_nexcs, vm_nflos;
+struct vm_pair_t vm_pair0, vm_pair1, vm_pair2, vm_pair3, vm_pair4, vm_pair5;
+struct vm_exc_t vm_exc0, vm_exc1, vm_exc2, vm_exc3;
+struct vm_flo_t vm_flo0, vm_flo1, vm_flo2, vm_flo3;
+int vm_npairs, vm_nexcs, vm_nflos;
 #define VM_PAIR(k) ((k) == 0 ? &vm_pair0 : (k) == 1 ? &vm_pair1 : (k) == 2 ? &vm_pair2 : (k) == 3 ? &vm_pair3 : (k) == 4 ? &vm_pair4 : &vm_pair5)
 #define VM_EXC(k) ((k) == 0 ? &vm_exc0 : (k) == 1 ? &vm_exc1 : (k) == 2 ? &vm_exc2 : &vm_exc3)
 #define VM_FLO(k) ((k) == 0 ? &vm_flo0 : (k) == 1 ? &vm_flo1 : (k) == 2 ? &vm_flo2 : &vm_flo3)
@@ -49,8 +51,9 @@ static inline sexp vm_new_pair(sexp a, sexp d) {
   return (sexp)p;
 }
 /* contract of the exception constructors: kind a symbol or #f, message a string */
-static struct { struct vm_hdr h; unsigned long length; char data[2]; } vm_msg_bytes;
-static struct { struct vm_hdr h; sexp bytes; unsigned long offset, length; } vm_msg_str;
+struct vm_msgb_t { struct vm_hdr h; unsigned long length; char data[2]; };
+struct vm_msgs_t { struct vm_hdr h; sexp bytes; unsigned long offset, length; };
+struct vm_msgb_t vm_msg_bytes; struct vm_msgs_t vm_msg_str;
 static inline sexp vm_new_exception(void) {
   __CPROVER_assume(vm_nexcs < 4);
   int k = vm_nexcs++;
@@ -71,6 +74,49 @@ static inline sexp vm_new_flonum(double d) {
   verif_register(f);
   return (sexp)f;
 }
+
+/* ---- alloc_gc for the VM (C02): a collection at every allocation ---------------------------
+ * Roots: the stack up to the PUBLISHED top (sexp_context_top(ctx)) and the variables on ctx->saves
+ * (self, tmp1, tmp2 of sexp_apply).  Every tracked pool object not reachable from them (directly, or
+ * through the car/cdr of a reachable pair or the slots of a reachable tracked vector; two rounds)
+ * is reclaimed: havocked and flagged. */
+#ifdef VERIF_GC
+int vm_pair_dead[6]; int vm_collections;
+sexp vm_gc_vec[2]; int vm_gc_vec_len[2]; int vm_gc_vec_dead[2]; int vm_gc_nvec;      /* tracked vectors (continuation box, saved stack) */
+static int vm_points_to(sexp holder_val, void *obj) { return holder_val == (sexp)obj; }
+static int vm_root_holds(sexp ctx, void *obj) {
+  long ptop = (long)sexp_context_top(ctx);
+  for (long k = 0; k < VM_STACK_SLOTS; k++) if (k < ptop && vm_stack_obj.data[k] == (sexp)obj) return 1;
+  struct sexp_gc_var_t *s = sexp_context_saves(ctx);
+  for (int d = 0; d < 8 && s != NULL; d++, s = s->next) if (s->var != NULL && *(s->var) == (sexp)obj) return 1;
+  return 0;
+}
+static void vm_collect(sexp ctx) {
+  int live_p[6] = {0}, live_v[2] = {0};
+  vm_collections++;
+  for (int k = 0; k < 6; k++) if (k < vm_npairs && !vm_pair_dead[k]) live_p[k] = vm_root_holds(ctx, VM_PAIR(k));
+  for (int v = 0; v < 2; v++) if (v < vm_gc_nvec && !vm_gc_vec_dead[v]) live_v[v] = vm_root_holds(ctx, vm_gc_vec[v]);
+  for (int round = 0; round < 2; round++) {
+    for (int k = 0; k < 6; k++) if (k < vm_npairs && live_p[k])
+      for (int q = 0; q < 6; q++) if (q < vm_npairs && (VM_PAIR(k)->car == (sexp)VM_PAIR(q) || VM_PAIR(k)->cdr == (sexp)VM_PAIR(q))) live_p[q] = 1;
+    for (int v = 0; v < 2; v++) if (v < vm_gc_nvec && live_v[v])
+      for (int e = 0; e < 24; e++) if (e < vm_gc_vec_len[v]) {
+        sexp x = ((sexp*)((char*)vm_gc_vec[v] + 16))[e];
+        for (int q = 0; q < 6; q++) if (q < vm_npairs && x == (sexp)VM_PAIR(q)) live_p[q] = 1;
+        for (int w = 0; w < 2; w++) if (w < vm_gc_nvec && x == vm_gc_vec[w]) live_v[w] = 1;
+      }
+    for (int k = 0; k < 6; k++) if (k < vm_npairs && live_p[k])
+      for (int w = 0; w < 2; w++) if (w < vm_gc_nvec && (VM_PAIR(k)->car == vm_gc_vec[w] || VM_PAIR(k)->cdr == vm_gc_vec[w])) live_v[w] = 1;
+  }
+  for (int k = 0; k < 6; k++) if (k < vm_npairs && !vm_pair_dead[k] && !live_p[k]) { struct vm_pair_t h_; *VM_PAIR(k) = h_; vm_pair_dead[k] = 1; }
+  for (int v = 0; v < 2; v++) if (v < vm_gc_nvec && !vm_gc_vec_dead[v] && !live_v[v]) {
+    vm_gc_vec_dead[v] = 1;
+    ((struct vm_hdr*)vm_gc_vec[v])->tag = nondet_uint(); *(unsigned long*)((char*)vm_gc_vec[v] + 8) = nondet_ulong();
+    for (int e = 0; e < 24; e++) if (e < vm_gc_vec_len[v]) ((sexp*)((char*)vm_gc_vec[v] + 16))[e] = (sexp)nondet_ulong();
+  }
+}
+static inline void vm_gc_track_vector(void *v, int len) { if (vm_gc_nvec < 2) { vm_gc_vec[vm_gc_nvec] = (sexp)v; vm_gc_vec_len[vm_gc_nvec] = len; vm_gc_nvec++; } }
+#endif
 
 /* an arbitrary immediate: any bit pattern that is not a pointer */
 static inline sexp vm_any_immediate(void) {
